@@ -49,6 +49,17 @@ func c12ProfileParams(name string, p Profile) [][3]string {
 	}
 }
 
+func c12BitsList(fs []float64) string {
+	s := "(["
+	for i, f := range fs {
+		if i > 0 {
+			s += "; "
+		}
+		s += strconv.FormatUint(math.Float64bits(f), 10)
+	}
+	return s + "]%Z : list Z)"
+}
+
 func TestVerifC12(t *testing.T) {
 	params := [][3]string{
 		{"c12_minBps", "Z", strconv.Itoa(minBps)},
@@ -75,6 +86,11 @@ func TestVerifC12(t *testing.T) {
 		{"c12_recNotInRecovery", "Z", strconv.Itoa(bbrRecoveryStateNotInRecovery)},
 		{"c12_recConservation", "Z", strconv.Itoa(bbrRecoveryStateConservation)},
 		{"c12_recGrowth", "Z", strconv.Itoa(bbrRecoveryStateGrowth)},
+		// layer 3 (full state machine): float constants as IEEE bit patterns
+		{"c12_pacingGain_bits", "raw", c12BitsList(pacingGain[:])},
+		{"c12_startupGrowthTarget_bits", "Z", strconv.FormatUint(math.Float64bits(startupGrowthTarget), 10)},
+		{"c12_lossThreshold_bits", "Z", strconv.FormatUint(math.Float64bits(quicBbr2DefaultLossThreshold), 10)},
+		{"c12_PacketsPerConnectionID", "Z", strconv.Itoa(congestion.PacketsPerConnectionID)},
 	}
 	params = append(params, c12ProfileParams("standard", ProfileStandard)...)
 	params = append(params, c12ProfileParams("conservative", ProfileConservative)...)
